@@ -60,7 +60,7 @@ contract('parso.python.parser.Parser.convert_leaf',
              'implies(type is PythonTokenTypes.NEWLINE, isinstance(result, tree.Newline))',
              'implies(type is PythonTokenTypes.ENDMARKER, isinstance(result, tree.EndMarker))',
              'implies(type is PythonTokenTypes.OP, isinstance(result, tree.Operator))'],
-         props=['C01', 'C03', 'C06'])
+         refines='parso.parser.BaseParser.convert_leaf', props=['C01', 'C03', 'C06'])
 
 # ---- C02 / C01: the engine's stack discipline (safety of _add_token / _pop, one leaf per token)
 class_fields('StackNode', dfa='ref:DFAState', nodes='list:ref:NodeOrLeaf')
